@@ -1,6 +1,7 @@
 import Driver.Util
 import NutsModel.C02.Token
 import NutsModel.C02.History
+import NutsModel.C02.Jar
 import NutsModel.Facts.C02
 open Lean Nuts.Drv Nuts.C02 Nuts
 
@@ -84,6 +85,61 @@ def parseSession (j : Json) : Session :=
     challenge := jStr j "challenge", method := jStr j "method", clientState := jStr j "client_state",
     consumer := ⟨parseDefs j "required", [], [], 0⟩ }
 
+
+/-! #### request objects (jar.go) and the endpoint dispatchers -/
+
+def parsePVal (j : Json) : PVal :=
+  match jStr j "kind" with
+  | "str" => .str (jStr j "v")
+  | "strs" => .strs (jStrs j "l")
+  | _ => .other
+
+def parseParams (j : Json) (k : String) : Params := (jArr j k).map fun c => (jStr c "k", parsePVal c)
+
+def fetchTable (j : Json) (k : String) : String → Option String :=
+  let tbl := (jArr j k).map fun e => (jStr e "in", if jBool e "ok" then some (jStr e "out") else none)
+  fun u => ((tbl.find? (·.1 == u)).map (·.2)).getD none
+
+def parseEnv (j : Json) : JarEnv :=
+  let toks := (jArr j "tokens").map fun e =>
+    (jStr e "raw", if jBool e "ok" then some ({ kid := jStr e "kid", keyThumb := jStr e "thumb", claims := parseParams e "claims" } : JwtView) else none)
+  let cfgs := (jArr j "configs").map fun e =>
+    (jStr e "client", if jBool e "ok" then some ((jArr e "keys").map fun k => (jStr k "kid", jStr k "thumb")) else none)
+  { fetchGet := fetchTable j "get", fetchPost := fetchTable j "post",
+    parse := fun raw => ((toks.find? (·.1 == raw)).map (·.2)).getD none,
+    config := fun c => ((cfgs.find? (·.1 == c)).map (·.2)).getD none }
+
+def showCall : JarCall → String
+  | .get u => "get(" ++ u ++ ")"
+  | .post u => "post(" ++ u ++ ")"
+  | .config c => "config(" ++ c ++ ")"
+
+def grantNames : GrantNames :=
+  { authorizationCode := Facts.C02.grantAuthorizationCode, preAuthorizedCode := Facts.C02.grantPreAuthorizedCode,
+    vpToken := Facts.C02.grantVpToken }
+
+def parseExtra (j : Json) : List (String × String) :=
+  (jArr j "extra_form").filterMap fun p => match p with
+    | .arr a => match a.toList with
+      | [k, v] => some (k.getStr?.toOption.getD "", v.getStr?.toOption.getD "")
+      | _ => none
+    | _ => none
+
+def parseS2S (j : Json) : S2SReq :=
+  { subject := jStr j "subject", paramsPresent := jBool j "params", clientId := jStr j "client_id",
+    scope := jStr j "scope", envelopeOK := jBool j "envelope_ok", submissionOK := jBool j "submission_ok",
+    vps := (jArr j "vps").map parseVP, subDefId := jStr j "def_id", pex := parsePex j "pex",
+    claims := parseClaims j "claims", dpop := parseDPoP (jObj j "dpop"),
+    nonceFault := jStr j "fault" == "nonce-get" }
+
+def parseCode (j : Json) : CodeReq :=
+  { subject := jStr j "subject", code := optStr j "code", verifier := optStr j "verifier",
+    clientId := optStr j "client_id", dpop := parseDPoP (jObj j "dpop"), extra := parseExtra j }
+
+def shaOf (j : Json) : String → String :=
+  let tbl := (jArr j "sha").map fun p => (jStr p "in", jStr p "out")
+  fun v => ((tbl.find? (·.1 == v)).map (·.2)).getD ("unknown-digest:" ++ v)
+
 def present {α} (o : Option α) : String := if o.isSome then "present" else "absent"
 
 def step (st : St) (j : Json) : St × List String :=
@@ -91,13 +147,11 @@ def step (st : St) (j : Json) : St × List String :=
   match jStr j "op" with
   | "cfg" => ({ cfg := cfgOf j, w := {}, sha := (jArr j "sha").map fun p => (jStr p "in", jStr p "out") }, ["cfg"])
   | "s2s" =>
-    let r : S2SReq :=
-      { subject := jStr j "subject", paramsPresent := jBool j "params", clientId := jStr j "client_id",
-        scope := jStr j "scope", envelopeOK := jBool j "envelope_ok", submissionOK := jBool j "submission_ok",
-        vps := (jArr j "vps").map parseVP, subDefId := jStr j "def_id", pex := parsePex j "pex",
-        claims := parseClaims j "claims", dpop := parseDPoP (jObj j "dpop"),
-        nonceFault := jStr j "fault" == "nonce-get" }
-    let (w', res) := issueS2S st.cfg st.w t r
+    let r := parseS2S j
+    -- `grant_type` present: the request goes through the grant_type switch of HandleTokenRequest with that value
+    let (w', res) := match optStr j "grant_type" with
+      | some g => tokenEndpoint st.cfg grantNames (shaOf j) st.w t r.subject g r (parseCode j)
+      | none => issueS2S st.cfg st.w t r
     ({ st with w := w' }, [overHTTP (jBool j "http") (showResp res)])
   | "seed" =>
     -- the authorization-request leg: client-state session and nonce ↦ state mapping, as
@@ -141,17 +195,22 @@ def step (st : St) (j : Json) : St × List String :=
     let (w', oa, ob) := raceAuthorize st.cfg st.w t r firstIsA
     ({ st with w := w' }, [s!"race A[{showAuthOut oa}] B[{showAuthOut ob}]"])
   | "code" =>
-    let r : CodeReq := { subject := jStr j "subject", code := optStr j "code", verifier := optStr j "verifier",
-                         clientId := optStr j "client_id", dpop := parseDPoP (jObj j "dpop"),
-                         extra := (jArr j "extra_form").filterMap fun p => match p with
-                           | .arr a => match a.toList with
-                             | [k, v] => some (k.getStr?.toOption.getD "", v.getStr?.toOption.getD "")
-                             | _ => none
-                           | _ => none }
-    let tbl := (jArr j "sha").map fun p => (jStr p "in", jStr p "out")
-    let sha := fun v => ((tbl.find? (·.1 == v)).map (·.2)).getD ("unknown-digest:" ++ v)
-    let (w', res) := issueCode st.cfg sha st.w t r
+    let r := parseCode j
+    let (w', res) := match optStr j "grant_type" with
+      | some g => tokenEndpoint st.cfg grantNames (shaOf j) st.w t r.subject g (parseS2S j) r
+      | none => issueCode st.cfg (shaOf j) st.w t r
     ({ st with w := w' }, [overHTTP (jBool j "http") (showResp res)])
+  | "authz" =>
+    let q := jObj j "q"
+    let query : JarQuery := ⟨jStr q "request", jStr q "request_uri", jStr q "request_uri_method", jStr q "client_id"⟩
+    let r : AuthzHttp := ⟨jStr j "subject", query⟩
+    let (w', calls, res) := authorizeEndpoint st.cfg (jBool j "enabled") (parseEnv j) st.w t r
+    let out := match res with
+      | .ok o => s!"302 state={o.state} nonce={o.nonce} owner={o.owner}"
+      | .err e => "err:" ++ e
+      | .panic p => "panic:" ++ p
+    let cs := String.intercalate " " (calls.map showCall)
+    ({ st with w := w' }, ["calls=[" ++ cs ++ "] " ++ out])
   | "introspect" =>
     let res := if jBool j "extended" then introspectExtended st.cfg st.w t (jStr j "token")
                else introspectPlain st.cfg st.w t (jStr j "token")
